@@ -1,4 +1,457 @@
 import FqModel.Proto
-/-! driver for C08 (stub — replaced by the property's own driver) -/
-open FqModel.Proto
-def main : IO Unit := run (fun _ _ => "BADOP driver-stub")
+import FqModel.Bits
+import FqModel.JQValue
+/-! driver for C08
+
+  Token formats (harness/cmd/c08/ser.go):
+    JV  := N | T | F | I<dec> | D<16 hex> | S<hex|-> | A<n> JV*n | O<n> (<hex|-> JV)*n
+    Val := the same with Val inside containers | @ JV (a decode value, shown by its tovalue) | X
+    DV  := s<n> (<hex|-> DV)*n | a<n> DV*n | (u<dec>|i<dec>|b<dec>|f<16hex>|t<hex>|B0|B1|j JV|r<hex>/<nbits>) (-|= JV) (.|y)
+
+  `M [@note]* ft<n> (<16hex> <hex text>)*n <DV> | op ; op …`  TAB  `obs ; obs …`
+      the real JQValue* methods called directly on the value; per op:
+        DIVERGE   the model's method (FqModel.JQValue, impl mode) gives another result
+        PROPFAIL  the result differs from what the specification (plain value of `tovalue` + the
+                  documented exceptions D1-D4) gives for the builtin that dispatches to the method
+        KNOWN k   … and the difference is exactly the recorded deviation k
+  `Q [@note]* ft… <DV> | <Q>`  TAB  `<obs of v|q> || <obs of v|tovalue|q>`   obs = Val* (. | err)
+        DIVERGE   model eval (impl mode) on `wrap v` ≠ first obs, or model eval on `toValue v` ≠ second
+        PROPFAIL  first obs ≠ specification eval on `wrap v`; or the two observations differ (as JSON,
+                  invalid UTF-8 replaced) although the specification says they agree
+-/
+open FqModel FqModel.JQValue FqModel.Proto
+
+abbrev P (α : Type) := List String → Option (α × List String)
+
+def hex64 (s : String) : Option UInt64 :=
+  match bytesOfHex s with
+  | some bs => if bs.length == 8 then some (bs.foldl (fun (a : UInt64) b => a * 256 + b.toNat.toUInt64) 0) else none
+  | none => none
+
+def hex16 (b : UInt64) : String :=
+  hexOfBytes ((List.range 8).map (fun i => (b >>> (8 * (7 - i)).toUInt64).toUInt8))
+
+def tailStr (t : String) : String := String.ofList (t.toList.drop 1)
+def headCh (t : String) : Char := t.toList.headD ' '
+
+partial def pJV : P JV
+  | [] => none
+  | t :: r =>
+    match headCh t with
+    | 'N' => if t == "N" then some (.null, r) else none
+    | 'T' => if t == "T" then some (.bool true, r) else none
+    | 'F' => if t == "F" then some (.bool false, r) else none
+    | 'I' => (tailStr t).toInt?.map (fun i => (.int i, r))
+    | 'D' => (hex64 (tailStr t)).map (fun b => (.float b, r))
+    | 'S' => (bytesOfHex (tailStr t)).map (fun b => (.str b, r))
+    | 'A' =>
+      match (tailStr t).toNat? with
+      | none => none
+      | some n =>
+        let rec go (n : Nat) (acc : List JV) (r : List String) : Option (List JV × List String) :=
+          if n == 0 then some (acc.reverse, r) else
+            match pJV r with
+            | some (x, r') => go (n - 1) (x :: acc) r'
+            | none => none
+        (go n [] r).map (fun (xs, r') => (.arr xs, r'))
+    | 'O' =>
+      match (tailStr t).toNat? with
+      | none => none
+      | some n =>
+        let rec goO (n : Nat) (acc : List (Bytes × JV)) (r : List String) : Option (List (Bytes × JV) × List String) :=
+          if n == 0 then some (acc.reverse, r) else
+            match r with
+            | k :: r1 =>
+              match bytesOfHex k, pJV r1 with
+              | some kb, some (x, r') => goO (n - 1) ((kb, x) :: acc) r'
+              | _, _ => none
+            | [] => none
+        (goO n [] r).map (fun (kvs, r') => (.obj (objOfList kvs), r'))
+    | _ => none
+
+def pSymFlags (k : SKind) (r : List String) : Option (DV × List String) :=
+  let fin (sym : Option JV) (r : List String) : Option (DV × List String) :=
+    match r with
+    | "." :: r' => some (.scalar k sym false, r')
+    | "y" :: r' => some (.scalar k sym true, r')
+    | _ => none
+  match r with
+  | "-" :: r' => fin none r'
+  | "=" :: r' => match pJV r' with
+    | some (j, r'') => fin (some j) r''
+    | none => none
+  | _ => none
+
+partial def pDV : P DV
+  | [] => none
+  | t :: r =>
+    let rest := tailStr t
+    match headCh t with
+    | 's' =>
+      match rest.toNat? with
+      | none => none
+      | some n =>
+        let rec go (n : Nat) (acc : List (Bytes × DV)) (r : List String) : Option (List (Bytes × DV) × List String) :=
+          if n == 0 then some (acc.reverse, r) else
+            match r with
+            | k :: r1 =>
+              match bytesOfHex k, pDV r1 with
+              | some kb, some (x, r') => go (n - 1) ((kb, x) :: acc) r'
+              | _, _ => none
+            | [] => none
+        (go n [] r).map (fun (fs, r') => (.struct fs, r'))
+    | 'a' =>
+      match rest.toNat? with
+      | none => none
+      | some n =>
+        let rec goA (n : Nat) (acc : List DV) (r : List String) : Option (List DV × List String) :=
+          if n == 0 then some (acc.reverse, r) else
+            match pDV r with
+            | some (x, r') => goA (n - 1) (x :: acc) r'
+            | none => none
+        (goA n [] r).map (fun (es, r') => (.array es, r'))
+    | 'u' => match rest.toNat? with
+      | some n => pSymFlags (.uint n) r
+      | none => none
+    | 'i' => match rest.toInt? with
+      | some n => pSymFlags (.sint n) r
+      | none => none
+    | 'b' => match rest.toInt? with
+      | some n => pSymFlags (.big n) r
+      | none => none
+    | 'f' => match hex64 rest with
+      | some b => pSymFlags (.flt b) r
+      | none => none
+    | 't' => match bytesOfHex rest with
+      | some b => pSymFlags (.str b) r
+      | none => none
+    | 'B' => if t == "B1" then pSymFlags (.bool true) r else if t == "B0" then pSymFlags (.bool false) r else none
+    | 'j' => if t != "j" then none else match pJV r with
+      | some (j, r') => pSymFlags (.any j) r'
+      | none => none
+    | 'r' =>
+      match rest.splitOn "/" with
+      | [h, _] => match bytesOfHex h with
+        | some b => pSymFlags (.raw b) r
+        | none => none
+      | _ => none
+    | _ => none
+
+def pOptInt (s : String) : Option (Option Int) :=
+  if s == "_" then some none else s.toInt?.map some
+
+partial def pQ : P Q
+  | [] => none
+  | t :: r =>
+    let un (c : Q → Q) (r : List String) : Option (Q × List String) :=
+      (pQ r).map (fun (a, r') => (c a, r'))
+    let bin (c : Q → Q → Q) (r : List String) : Option (Q × List String) :=
+      match pQ r with
+      | some (a, r1) => (pQ r1).map (fun (b, r2) => (c a b, r2))
+      | none => none
+    match t with
+    | "id" => some (.id, r)
+    | "it" => some (.iter, r)
+    | "rec" => some (.recurse, r)
+    | "keys" => some (.keys, r)
+    | "length" => some (.length, r)
+    | "type" => some (.type, r)
+    | "paths" => some (.paths, r)
+    | "toent" => some (.toEntries, r)
+    | "tojson" => some (.tojson, r)
+    | "tostring" => some (.tostring, r)
+    | "tonumber" => some (.tonumber, r)
+    | "sort" => some (.sort, r)
+    | "pipe" => bin .pipe r
+    | "comma" => bin .comma r
+    | "obj" => bin .objC r
+    | "eq" => bin (.bin .eq) r
+    | "lt" => bin (.bin .lt) r
+    | "add" => bin (.bin .add) r
+    | "sub" => bin (.bin .sub) r
+    | "alt" => bin .alt r
+    | "arr" => un .arrC r
+    | "try" => un .try r
+    | "if" =>
+      match pQ r with
+      | some (c, r1) => match pQ r1 with
+        | some (a, r2) => (pQ r2).map (fun (b, r3) => (.ite c a b, r3))
+        | none => none
+      | none => none
+    | "lit" => (pJV r).map (fun (j, r') => (.lit j, r'))
+    | "has" => (pJV r).map (fun (j, r') => (.has j, r'))
+    | "sl" =>
+      match r with
+      | a :: b :: r' => match pOptInt a, pOptInt b with
+        | some x, some y => some (.slice x y, r')
+        | _, _ => none
+      | _ => none
+    | _ =>
+      match headCh t with
+      | 'f' => (bytesOfHex (tailStr t)).map (fun k => (.field k, r))
+      | 'i' => (tailStr t).toInt?.map (fun i => (.index i, r))
+      | _ => none
+
+/-! ### serialisation -/
+
+def floatTok (b : UInt64) : String :=
+  if (Float.ofBits b).isNaN then "D7ff8000000000001" else "D" ++ hex16 b
+
+def hx (b : Bytes) : String := if b.isEmpty then "-" else hexOfBytes b
+
+partial def sJV : JV → String
+  | .null => "N"
+  | .bool true => "T"
+  | .bool false => "F"
+  | .int i => s!"I{i}"
+  | .float b => floatTok b
+  | .str s => "S" ++ hx s
+  | .arr xs => s!"A{xs.length}" ++ String.join (xs.map (fun x => " " ++ sJV x))
+  | .obj kvs =>
+    let kvs := objOfList kvs
+    s!"O{kvs.length}" ++ String.join (kvs.map (fun kv => " " ++ hx kv.1 ++ " " ++ sJV kv.2))
+
+partial def sVal : Val → String
+  | .null => "N"
+  | .bool true => "T"
+  | .bool false => "F"
+  | .int i => s!"I{i}"
+  | .float b => floatTok b
+  | .str s => "S" ++ hx s
+  | .arr xs => s!"A{xs.length}" ++ String.join (xs.map (fun x => " " ++ sVal x))
+  | .obj kvs =>
+    let kvs := objOfList kvs
+    s!"O{kvs.length}" ++ String.join (kvs.map (fun kv => " " ++ hx kv.1 ++ " " ++ sVal kv.2))
+  | .dv d => "@ " ++ sJV d.toValue
+  | .ext _ => "X"
+  | .garr xs => sJV (.arr xs)
+
+def errClass : Err → String
+  | .expectedArray => "err:expected-array"
+  | .expectedObject => "err:expected-object"
+  | .iterator => "err:iterator"
+  | .funcType n => "err:func:" ++ n
+  | .hasKeyType => "err:has-key"
+  | .invalidNumber => "err:invalid-number"
+  | .objectKey => "err:object-key"
+  | .binop n => "err:binop:" ++ n
+  | .unmodelled w => "unmodelled:" ++ w
+
+def sOutcome : Outcome Val → String
+  | .ok v => "ok " ++ sVal v
+  | .err e => errClass e
+  | .panic _ => "panic"
+
+def sEach : Outcome (List (Val × Val)) → String
+  | .ok ps => s!"ok P{ps.length}" ++ String.join (ps.map (fun p => " " ++ sVal p.1 ++ " " ++ sVal p.2))
+  | .err e => errClass e
+  | .panic _ => "panic"
+
+/-- observation of a query: outputs, then `.` or `err` (a Go panic is `panic`) -/
+def sRes (r : Res) : String :=
+  let outs := String.join (r.outs.map (fun v => sVal v ++ " "))
+  match r.err with
+  | none => outs ++ "."
+  | some (.err (.unmodelled w)) => "unmodelled:" ++ w
+  | some (.err _) => outs ++ "err"
+  | some (.panic _) => "panic"
+  | some (.ok _) => outs ++ "."
+
+/-! ### normal form for "equal as JSON": no decode-value marks, invalid UTF-8 replaced (D4) -/
+
+def normTok (w : String) : Option String :=
+  if w == "@" then none
+  else if headCh w == 'S' && w != "S-" then
+    match bytesOfHex (tailStr w) with
+    | some b => some ("S" ++ hx (sanitize b))
+    | none => some w
+  else some w
+
+def normObs (s : String) : String := " ".intercalate ((words s).filterMap normTok)
+
+def isUnmodelled (s : String) : Bool := (s.splitOn "unmodelled:").length > 1
+
+/-! ### float text table -/
+
+def pFloatTable : P (List (UInt64 × Bytes))
+  | [] => none
+  | t :: r =>
+    if !t.startsWith "ft" then none else
+    match (String.ofList (t.toList.drop 2)).toNat? with
+    | none => none
+    | some n =>
+      let rec go : Nat → List (UInt64 × Bytes) → List String → Option (List (UInt64 × Bytes) × List String)
+        | 0, acc, r => some (acc, r)
+        | n + 1, acc, b :: x :: r => match hex64 b, bytesOfHex x with
+          | some bits, some txt => go n ((bits, txt) :: acc) r
+          | _, _ => none
+        | _, _, _ => none
+      go n [] r
+
+def mkFF (tbl : List (UInt64 × Bytes)) (b : UInt64) : Option Bytes :=
+  (tbl.find? (fun p => p.1 == b)).map (·.2)
+
+/-! ### known deviations (known_findings.json) -/
+
+def knownModes : List (String × Mode) := [
+  ("string-index-out-of-range", { impl := false, kStrIdx := true }),
+  ("object-key-jqvalue", { impl := false, kObjKey := true }),
+  ("gojq-minint-length", { impl := false, kMinInt := true }),
+  ("several", { impl := false, kStrIdx := true, kObjKey := true, kMinInt := true })]
+
+/-! ### M lines -/
+
+def splitOps (s : String) : List String := (s.splitOn " ; ").map (fun x => " ".intercalate (words x))
+
+/-- the model's JQValue* method (impl), and the builtin through which the specification sees it -/
+def methodObs (ff : UInt64 → Option Bytes) (d : DV) (op : List String) : Option (String × (Mode → Option String)) :=
+  let v := Val.dv d
+  match op with
+  | ["length"] => some (sOutcome d.mLength, fun m => some (sOutcome (funcLength m v)))
+  | ["slicelen"] => some (sOutcome d.mSliceLen, fun _ => none)
+  | ["type"] => some ("ok S" ++ hx (ofAscii d.mType), fun m => some ("ok S" ++ hx (funcType m v)))
+  | ["tonumber"] => some (sOutcome d.mToNumber, fun m => some (sOutcome (funcToNumber m v)))
+  | ["tostring"] =>
+    -- JQValueToString is used for object keys only (execute.go:64)
+    some (sOutcome (d.mToString ff), fun m => some (match objectKey m ff v with
+      | .ok s => "ok S" ++ hx s
+      | .err e => errClass e
+      | .panic _ => "err:func:tostring"))
+  | ["togojq"] => some ("ok " ++ sVal d.mToGoJQ, fun m => some ("ok " ++ sJV (v.deepM m)))
+  | ["keys"] => some (sOutcome d.mKeys, fun m => some (sOutcome (funcKeys m v)))
+  | ["each"] => some (sEach d.mEach, fun m => some (sEach (opEach m v)))
+  | ["index", i] =>
+    match i.toInt? with
+    | none => none
+    | some i =>
+      some (sOutcome (d.mIndex i), fun m =>
+        -- the markers -2 / -1 stand for an index before / after the value
+        match d.mSliceLen with
+        | .ok (.int l) => some (sOutcome (indexInt m v (if i == -2 then -(l + 1) else if i == -1 then l else i)))
+        | _ => some (sOutcome (indexInt m v i)))
+  | ["slice", a, b] =>
+    match a.toInt?, b.toInt? with
+    | some a, some b => some (sOutcome (d.mSlice a b), fun m => some (sOutcome (funcSlice m v (some a) (some b))))
+    | _, _ => none
+  | ["key", k] =>
+    match bytesOfHex k with
+    | some k => some (sOutcome (d.mKey k), fun m => some (sOutcome (indexKey m v k)))
+    | none => none
+  | "has" :: ks =>
+    match pJV ks with
+    | some (j, []) => some (sOutcome (d.mHas (Val.ofJV j)), fun m => some (sOutcome (funcHas m v (Val.ofJV j))))
+    | _ => none
+  | _ => none
+
+def isErr (s : String) : Bool := s.startsWith "err:"
+
+/-- equal as results: identical; or both errors; or `ok X` (extra key value) against any value -/
+def sameResult (a b : String) : Bool :=
+  a == b || (isErr a && isErr b) || (a == "ok X" && b.startsWith "ok ") || (b == "ok X" && a.startsWith "ok ")
+
+def stepM (ff : UInt64 → Option Bytes) (d : DV) (ops obs : List String) : String := Id.run do
+  if ops.length != obs.length then return "BADOP ops-and-observations-differ-in-number"
+  let mut diverge : Option String := none
+  let mut fail : Option String := none
+  let mut known : Option String := none
+  for (op, ob) in ops.zip obs do
+    match methodObs ff d (words op) with
+    | none => return s!"BADOP op {op}"
+    | some (model, specOf) =>
+      if isUnmodelled model then continue
+      -- correspondence: model method vs real method (exact, including the error class)
+      if !(model == ob || (model == "ok X" && ob.startsWith "ok ")) then
+        if diverge.isNone then diverge := some s!"{op} => {model}"
+      -- property: the real method's result vs the specification
+      match specOf Mode.spec with
+      | none => pure ()
+      | some sp =>
+        if isUnmodelled sp then continue
+        if !(sameResult (normObs ob) (normObs sp)) then
+          -- a recorded deviation?
+          let k := knownModes.find? (fun km => match specOf km.2 with
+            | some s => sameResult (normObs ob) (normObs s)
+            | none => false)
+          match k with
+          | some (key, _) => if known.isNone then known := some s!"{key} {op} => {ob} spec {sp}"
+          | none => if fail.isNone then fail := some s!"{op} => {ob} but the plain value gives {sp}"
+  let div := match diverge with
+    | some dtxt => s!" ;DIVERGE model={dtxt}"
+    | none => ""
+  match fail, known with
+  | some f, _ => return s!"PROPFAIL {f}{div}"
+  | none, some k => return s!"KNOWN {k}{div}"
+  | none, none => return (if div.isEmpty then "OK" else s!"DIVERGE model={(diverge.getD "")}")
+
+/-! ### Q lines -/
+
+def stepQ (ff : UInt64 → Option Bytes) (d : DV) (q : Q) (obs : String) : String :=
+  match obs.splitOn " || " with
+  | [direct, plain] =>
+    let direct := " ".intercalate (words direct)
+    let plain := " ".intercalate (words plain)
+    if direct.startsWith "batch-failed:panic" then
+      -- the interpreter crashed on `v | q`
+      let mImpl := sRes (q.eval Mode.real ff (wrap d))
+      let k := sRes (q.eval { impl := false, kObjKey := true } ff (wrap d))
+      let div := if mImpl == "panic" then "" else s!" ;DIVERGE model={mImpl}"
+      -- the recorded crash: TypeOf panics on the error value that JQValueToString returned for a
+      -- non-string JQValue object key (error.go:59)
+      if direct == "batch-failed:panic:invalid-type-FuncTypeNameError" && k == "panic" then s!"KNOWN object-key-jqvalue interpreter panic{div}"
+      else s!"PROPFAIL interpreter panic on v|q ({direct}){div}"
+    else if direct.startsWith "batch-failed" || plain.startsWith "batch-failed" then
+      s!"BADOP harness could not evaluate: {direct} || {plain}"
+    else
+    let mImpl := sRes (q.eval Mode.real ff (wrap d))
+    let mPlain := sRes (q.eval Mode.real ff (Val.ofJV d.toValue))
+    let mSpec := sRes (q.eval Mode.spec ff (wrap d))
+    let d1 := if isUnmodelled mImpl || mImpl == direct then none else some s!"v|q: {mImpl}"
+    let d2 := if isUnmodelled mPlain || mPlain == plain then none else some s!"v|tovalue|q: {mPlain}"
+    let div := match d1, d2 with
+      | some a, _ => s!" ;DIVERGE model={a}"
+      | none, some b => s!" ;DIVERGE model={b}"
+      | none, none => ""
+    -- property (1): the observation of `v | q` is what the specification predicts
+    let p1 : Option String :=
+      if isUnmodelled mSpec || mSpec == direct then none else some s!"v|q gives {direct} but the specification (plain value + documented exceptions) gives {mSpec}"
+    -- property (2): as JSON the two runs agree, or the specification itself says they differ
+    -- (then the difference is one of D1-D4 by construction of the specification)
+    let p2 : Option String :=
+      if normObs direct == normObs plain then none
+      else if isUnmodelled mSpec || isUnmodelled mPlain then none
+      else if normObs mSpec != normObs mPlain then none
+      else some s!"v|q = {direct} and v|tovalue|q = {plain} differ outside the documented exceptions"
+    match p1, p2 with
+    | none, none => if div.isEmpty then (if isUnmodelled mImpl || isUnmodelled mPlain || isUnmodelled mSpec then "OK model-declined-float-or-number-text" else "OK") else s!"DIVERGE model={(d1.getD (d2.getD ""))}"
+    | some f, _ =>
+      let k := knownModes.find? (fun km => sRes (q.eval km.2 ff (wrap d)) == direct)
+      (match k with
+       | some (key, _) => s!"KNOWN {key} {f}{div}"
+       | none => s!"PROPFAIL {f}{div}")
+    | none, some f => s!"PROPFAIL {f}{div}"
+  | _ => "BADOP obs"
+
+def stripNotes (ws : List String) : List String := ws.filter (fun w => !w.startsWith "@")
+
+def stepC08 (op obs : String) : String :=
+  match op.splitOn " | " with
+  | [head, rest] =>
+    match stripNotes (words head) with
+    | kind :: ws =>
+      match pFloatTable ws with
+      | none => "BADOP float-table"
+      | some (tbl, ws1) =>
+        match pDV ws1 with
+        | some (d, []) =>
+          let ff := mkFF tbl
+          if kind == "M" then stepM ff d (splitOps rest) (splitOps obs)
+          else if kind == "Q" then
+            match pQ (words rest) with
+            | some (q, []) => stepQ ff d q obs
+            | _ => "BADOP query"
+          else "BADOP kind"
+        | _ => "BADOP value"
+    | [] => "BADOP empty"
+  | _ => "BADOP no-separator"
+
+def main : IO Unit := run stepC08
